@@ -419,7 +419,15 @@ class _ArraySizeInferInstance(DefaultVisitor):
                 return None
 
     def _visit_naryop(self, e: NaryOp, ctx: None):
-        tys = [self._visit_expr(arg, ctx) for arg in e.args]
+        if isinstance(e, (And, Or)) and e.args:
+            # `and` / `or` skip their later operands, so those execute
+            # conditionally -- a strict ``zip`` inside one must not pin
+            # sizes globally.
+            tys = [self._visit_expr(e.args[0], ctx)]
+            with self._branch():
+                tys += [self._visit_expr(arg, ctx) for arg in e.args[1:]]
+        else:
+            tys = [self._visit_expr(arg, ctx) for arg in e.args]
         match e:
             case Zip():
                 if len(e.args) == 0:
